@@ -1,6 +1,7 @@
 import NanoVerif.Model.Wire
 import NanoVerif.Model.Transformed
 import NanoVerif.Model.Gradient
+import NanoVerif.Model.Palette
 /-
 Correspondence driver.  One JSON object per input line: {"op": ..., ...}; one JSON object per
 output line.  Run: `lake env lean --run Driver.lean < ops.jsonl`.
@@ -54,8 +55,35 @@ def radResidual (g : RadGrad) (x : Pt) (t : Q) : Q :=
   (x.x - (g.c0.x + t * (g.c1.x - g.c0.x))) ^ 2 + (x.y - (g.c0.y + t * (g.c1.y - g.c0.y))) ^ 2
     - (g.r0 + t * (g.r1 - g.r0)) ^ 2
 
+def getColor (j : Json) : Except String Color := do
+  match ← getArr j with
+  | [r, g, b, a, i] =>
+      let idx ← match i with
+        | .null => pure none
+        | v => (some <$> getNat v)
+      return ⟨← getInt r, ← getInt g, ← getInt b, ← getQ a, idx⟩
+  | _ => throw "color needs 5 fields"
+
+def jColor (c : Color) : Json :=
+  Json.arr #[jI c.r, jI c.g, jI c.b, jQ c.a, match c.idx with | some k => Json.str (toString k) | none => Json.null]
+
+def pErr : PErr → String
+  | .valueError => "ValueError"
+  | .indexError => "IndexError"
+  | .assertNotEmpty => "AssertionError"
+
 def dispatch (op : String) (j : Json) : Except String Json := do
   match op with
+  | "palette" =>
+      let cs ← (← getArr (← field j "colors")).mapM getColor
+      match uniqSortCpal cs with
+      | .ok r => return obj [("ok", Json.arr (r.map jColor).toArray)]
+      | .error e => return obj [("err", Json.str (pErr e))]
+  | "check-palette" =>
+      let cs ← (← getArr (← field j "colors")).mapM getColor
+      let pal ← (← getArr (← field j "pal")).mapM getColor
+      return obj [("ok", Json.bool (checkPalette cs pal)),
+                  ("conflict", Json.bool (hasConflict (allColors cs)))]
   | "check16" =>
       let t ← getAff (← field j "t")
       let e ← getEnc (← field j "enc")
